@@ -165,17 +165,31 @@ def build_from(sc: dict):
         # simulators must be created in index order for `world.sims` order = model order; groups
         # force a creation order, so scenarios list their simulators in group-tree order
         rec([])
+        # adjacent connections between the same two entities with the same options go into ONE connect() call with several
+        # attribute pairs (and one initial_data dict), the way scenarios are usually written; the model gets them one by one
+        calls = []
         for ci, c in enumerate(sc["connects"]):
+            key = (c["src"], c["seid"], c["dst"], c["deid"], c["ts"], c["weak"], bool(c.get("async")))
+            pair = (ATTRS[c["sattr"]], ATTRS[c["dattr"]])
+            init = {ATTRS[c["sattr"]]: 900000 + ci} if c["init"] else {}
+            if (sc.get("merge_calls") and calls and calls[-1]["key"] == key and pair not in calls[-1]["pairs"]
+                    and not (set(init) & set(calls[-1]["init"]))):
+                calls[-1]["pairs"].append(pair)
+                calls[-1]["init"].update(init)
+            else:
+                calls.append({"key": key, "pairs": [pair], "init": dict(init), "c": c})
+        for call in calls:
+            c = call["c"]
             kw = {}
             if c["ts"]:
                 kw["time_shifted"] = c["ts"]
             if c["weak"]:
                 kw["weak"] = True
-            if c["init"]:
-                kw["initial_data"] = {ATTRS[c["sattr"]]: 900000 + ci}
+            if call["init"]:
+                kw["initial_data"] = call["init"]
             if c.get("async"):
                 kw["async_requests"] = True
-            world.connect(ents[c["src"]][c["seid"]], ents[c["dst"]][c["deid"]], (ATTRS[c["sattr"]], ATTRS[c["dattr"]]), **kw)
+            world.connect(ents[c["src"]][c["seid"]], ents[c["dst"]][c["deid"]], *call["pairs"], **kw)
         for i, s in enumerate(sims):
             if s.get("init_ev") is not None:
                 world.set_initial_event(f"S{i}", s["init_ev"])
@@ -598,6 +612,20 @@ def gen_scenario(rng: random.Random, groups: bool = True, async_req: bool = Fals
                 sc["extra_async"].append(dict(first, n=first["n"] + rng.choice([0, 0, 1])))
                 if rng.random() < 0.5 and first["time"] > 1:
                     sc["extra_async"].insert(0, dict(first, time=rng.randrange(1, first["time"])))
+    if rng.random() < 0.3 and connects:
+        # one more attribute pair on an existing connection, made in the same connect() call
+        k = rng.randrange(len(connects))
+        c0 = connects[k]
+        c1 = dict(c0)
+        c1["sattr"] = 5 - c0["sattr"]            # the other output attribute (2 <-> 3)
+        c1["dattr"] = 1 - c0["dattr"]            # ... into the other input attribute (one input key per connection)
+        need_init = (c1["ts"] or c1["weak"]) and not is_trigger(sims[c1["dst"]]["type"], c1["dattr"])
+        c1["init"] = bool(need_init)
+        key1 = (c1["src"], c1["seid"], c1["dst"], c1["deid"], c1["dattr"])
+        if key1 not in used:
+            used.add(key1)
+            connects.insert(k + 1, c1)
+            sc["merge_calls"] = True
     if not rt and rng.random() < 0.15:
         sc["debug"] = True          # World(debug=True): scheduler.step is wrapped to record the execution graph; behaviour must not change
     if not rt and rng.random() < 0.2:
